@@ -146,7 +146,21 @@ def padded_scan(prog, chk, rule, files=None):
                       'not the top resolved mode', t.loc, 'index derived from total_wavenumbers / modal_limits / modal_padding', sym.show(t.a[1]))
         out += 1
       else:
-        chk.ok(rule, key, f'index class: {kind}', t.loc)
+        # a padding-aware index must use the padding of the axis it indexes: (m, l) = components (0, 1) of modal_padding / modal_shape
+        base = util.strip(t.a[0])
+        role = None
+        if base.k == 'attr' and base.a[1] == 'laplacian_eigenvalues':
+          role = 1
+        elif base.k == 'sub' and base.a[0].k == 'attr' and base.a[0].a[1] == 'modal_axes' and base.a[1].k == 'const' and base.a[1].a[0] in (0, 1, -1, -2):
+          role = base.a[1].a[0] % 2
+        comps = [z.a[1].a[0] % 2 for z in sym.walk(t.a[1]) if z.k == 'sub' and z.a[0].k == 'attr' and z.a[0].a[1] in ('modal_padding', 'modal_shape', 'modal_limits')
+                 and z.a[1].k == 'const' and isinstance(z.a[1].a[0], int)]
+        if role is not None and any(c != role for c in comps):
+          chk.violation(rule, key, f'the index skips the padding of the other spectral axis: this array runs along the {"total" if role == 1 else "zonal"}-wavenumber axis (component {role} of modal_padding), '
+                        'so on layouts whose two paddings differ the entry read is not the top resolved mode (or is padding)', t.loc, f'modal_padding[{role}]', sym.show(t.a[1]))
+          out += 1
+        else:
+          chk.ok(rule, key, f'index class: {kind}', t.loc)
     else:
       key = f'{q}: extent {sym.show(t, maxdepth=3)[-70:]} of a tail-padded spectral array'
       chk.violation(rule, key, 'the padded extent of a spectral axis enters a computation: its value changes with base_shape_multiple / mesh while the resolved truncation does not', t.loc,
